@@ -206,9 +206,22 @@ func (m *Matcher) pat(p *ref.Pat, top bool) bool {
 			}
 			used[best] = true
 			m.pos += len(norm.NFC.String(p.Keys[best])) + 1
-			m.lit(" ")
-			if !m.pat(p.Elems[best], false) {
-				return false
+			// "key:value" or "key: value"; an empty string value makes the
+			// optional blank ambiguous with the property separator
+			save, saveN, saveWhy := m.pos, len(m.Numerals), m.why
+			ok := m.pat(p.Elems[best], false)
+			if ok {
+				rest := m.s[m.pos:]
+				last := n == len(p.Keys)-1
+				if (last && !strings.HasPrefix(rest, closer)) || (!last && !strings.HasPrefix(rest, " ") && !strings.HasPrefix(rest, ",")) {
+					ok = false
+				}
+			}
+			if !ok {
+				m.pos, m.Numerals, m.why = save, m.Numerals[:saveN], saveWhy
+				if !m.lit(" ") || !m.pat(p.Elems[best], false) {
+					return false
+				}
 			}
 		}
 		if !m.lit(closer) {
